@@ -181,6 +181,11 @@ pub fn decode(bytes: &[u8]) -> Case {
     }
 
     let mut argv = parent_line;
+    let early_dd = cmd_name.is_some() && u.chance(40);
+    if early_dd {
+        // the separator before the command name: the name is then plain data
+        argv.push(b"--".to_vec());
+    }
     if let Some(c) = &cmd_name {
         argv.push(c.as_bytes().to_vec());
     }
@@ -203,7 +208,11 @@ pub fn decode(bytes: &[u8]) -> Case {
         }
     }
     let mut dd = None;
-    if use_dd {
+    if early_dd {
+        dd = argv.iter().position(|a| a.as_slice() == b"--");
+        let rest: Vec<Vec<u8>> = words[split..].to_vec();
+        argv.extend(rest);
+    } else if use_dd {
         dd = Some(argv.len());
         argv.push(b"--".to_vec());
         let mut used: Vec<Vec<u8>> = Vec::new();
